@@ -189,8 +189,9 @@ fn part_b(rep: &Report, tier: Tier) {
         let lk = lks[k];
         let pd = pdu(p, 0);
         let pt = [0x0800u16, 0x86DD, 0xFFFF][p % 3];
-        for b1 in 7..=(4 + 6 + p + 1) {
-            for b2 in [7usize, 8, 9, 13, 70000] {
+        for b1 in 7..=(4 + 6 + p + 1 + 4) {
+            for (b2, via_ext) in [(7usize, false), (8, false), (9, true), (13, false), (70000, true), (64, false)] {
+                let exts: Vec<(u16, Vec<u8>)> = if via_ext { vec![(0x0202, vec![0xE1, 0xE2])] } else { vec![] };
                 let rec_tx = RecCrc::new();
                 let rec_rx = RecCrc::new();
                 let mut enc = Encapsulator::new(rec_tx.clone());
@@ -209,7 +210,7 @@ fn part_b(rep: &Report, tier: Tier) {
                 rec_tx.take();
                 rec_rx.take();
                 let mut buf = vec![0u8; b1];
-                let out = do_encap(&mut enc, &pd, 5, pt, pass, &mut buf);
+                let out = if via_ext { do_encap_ext(&mut enc, &pd, 5, pt, pass, &mut buf, &exts) } else { do_encap(&mut enc, &pd, 5, pt, pass, &mut buf) };
                 acc.states += 1;
                 acc.transitions += 1;
                 acc.calls += 1;
@@ -219,7 +220,7 @@ fn part_b(rep: &Report, tier: Tier) {
                 };
                 acc.outcome("B:first:Fragmented");
                 let rank = (p * 1000 + b1) as u64;
-                let wit = || json!({"pdu_len":p,"pdu_pattern":0,"pt":pt,"label_kind":format!("{:?}",lk),"first_buffer":b1,"next_buffers":b2});
+                let wit = || json!({"pdu_len":p,"pdu_pattern":0,"pt":pt,"label_kind":format!("{:?}",lk),"first_buffer":b1,"next_buffers":b2,"via":if via_ext { "encap_ext with one optional extension" } else { "encap" }});
                 // what was written?
                 let written_lt = (buf[0] >> 4) & 3;
                 let on_wire: Vec<u8> = if written_lt == 3 { vec![] } else { pass.bytes() };
@@ -231,7 +232,7 @@ fn part_b(rep: &Report, tier: Tier) {
                 } else {
                     let c = &calls[0];
                     if c.pdu != pd || c.pt != pt || c.total != want_total || c.label != on_wire {
-                        rep.violation(&format!("C12|wiring|sender-args|{}", if matches!(lk, Lk::Plain(_)) { "plain" } else { "reuse" }), rank, || (format!("encap passed (pdu {} bytes, pt {:#06x}, total_len {}, label {}) to the CRC calculator; expected (whole PDU {} bytes, pt {:#06x}, total_len {} = 2 + label as written + PDU, label as written {})", c.pdu.len(), c.pt, c.total, hex(&c.label), p, pt, want_total, hex(&on_wire)), wit()));
+                        rep.violation(&format!("C12|wiring|sender-args|{}|{}", if matches!(lk, Lk::Plain(_)) { "plain" } else { "reuse" }, if via_ext { "encap_ext" } else { "encap" }), rank, || (format!("encap passed (pdu {} bytes, pt {:#06x}, total_len {}, label {}) to the CRC calculator; expected (whole PDU {} bytes, pt {:#06x}, total_len {} = 2 + label as written + PDU, label as written {})", c.pdu.len(), c.pt, c.total, hex(&c.label), p, pt, want_total, hex(&on_wire)), wit()));
                     }
                     if c.ret != ctx.crc {
                         rep.violation("C12|wiring|context-crc", rank, || ("the context CRC is not the calculator's return value".into(), wit()));
@@ -271,7 +272,7 @@ fn part_b(rep: &Report, tier: Tier) {
                     acc.compared += 1;
                     let tr = &last_pkt[last_pkt.len() - 4..];
                     if tr != want_crc.to_be_bytes() {
-                        rep.violation(&format!("C12|wiring|trailer|{}", if matches!(lk, Lk::Plain(_)) { "plain" } else { "reuse" }), rank, || (format!("end fragment trailer {} is not the big-endian CRC-32/MPEG-2 {:#010x} of total|pt|label as written|PDU", hex(tr), want_crc), wit()));
+                        rep.violation(&format!("C12|wiring|trailer|{}|{}", if matches!(lk, Lk::Plain(_)) { "plain" } else { "reuse" }, if via_ext { "encap_ext" } else { "encap" }), rank, || (format!("end fragment trailer {} is not the big-endian CRC-32/MPEG-2 {:#010x} of total|pt|label as written|PDU", hex(tr), want_crc), wit()));
                     }
                     let rc = rec_rx.take();
                     acc.compared += 1;
@@ -299,5 +300,5 @@ fn part_b(rep: &Report, tier: Tier) {
         rep.merge(acc);
     });
     let _ = refm::header_fields;
-    rep.part(json!({"part":"B wiring","pdu_lengths":format!("0..={}",maxp),"label_kinds":6,"first_buffers":"7..=p+11","next_buffers":[7,8,9,13,70000]}));
+    rep.part(json!({"part":"B wiring","pdu_lengths":format!("0..={}",maxp),"label_kinds":6,"first_buffers":"7..=p+15","next_buffers":[7,8,9,13,64,70000],"via":"encap and encap_ext (one optional extension)"}));
 }
